@@ -163,6 +163,14 @@ pub struct FillCase {
     /// history: 0 none, 1 a valid full integer block accepted first, 2 a valid full byte block accepted first
     #[serde(default)]
     pub prefill: u8,
+    /// byte fills: this many trailing bytes (1..nbytes) are cut off, so that the byte string is not a whole number of
+    /// samples (the block itself is one sample short of the capacity: not an over-fill)
+    #[serde(default)]
+    pub cut_bytes: usize,
+    /// this many interleaved values (1..channels) are cut off from an under-full block, so that it is not a whole
+    /// number of inter-channel samples (no verdict on Ok/Err - only "no panic, now or when the buffer is encoded")
+    #[serde(default)]
+    pub cut_values: usize,
 }
 
 fn rnd_samples(n: usize, bps: usize, seed: u64) -> Vec<i32> {
@@ -177,12 +185,23 @@ pub fn check_fill(c: &FillCase) -> Outcome {
     let mut out = Outcome::new(fnv(format!("{c:?}").as_bytes()));
     let native = (c.bps + 7) / 8;
     let ragged = if c.channels >= 2 { c.ragged % c.channels } else { 0 };
-    let n = (c.capacity + c.extra) * c.channels + ragged;
+    let cut_bytes = if c.by_bytes && (2..=4).contains(&c.nbytes) && c.extra == 0 && ragged == 0 { c.cut_bytes % c.nbytes } else { 0 };
+    let cut_values = if c.channels >= 2 && c.extra == 0 && ragged == 0 && cut_bytes == 0 { c.cut_values % c.channels } else { 0 };
+    let under = (cut_bytes > 0 || cut_values > 0) as usize;
+    let n = (c.capacity + c.extra - under.min(c.capacity)) * c.channels + ragged - cut_values.min((c.capacity - under.min(c.capacity)) * c.channels);
     let v = rnd_samples(n, c.bps, c.seed);
     let overfill = c.extra > 0 || ragged > 0;
     let bad_width_for_ctx = c.by_bytes && c.target != 0 && c.nbytes != native;
     let bad_width_any = c.by_bytes && !(1..=4).contains(&c.nbytes);
-    let invalid = (overfill && c.target != 1) || bad_width_for_ctx || bad_width_any;
+    // a byte string that is not a whole number of samples cannot be stored faithfully in a buffer
+    let ragged_bytes = cut_bytes > 0 && c.target % 3 != 1;
+    let invalid = (overfill && c.target != 1) || bad_width_for_ctx || bad_width_any || ragged_bytes;
+    if cut_bytes > 0 {
+        out.class("arg:byte-string-not-a-whole-number-of-samples");
+    }
+    if cut_values > 0 {
+        out.class("arg:values-not-a-whole-number-of-inter-channel-samples(no verdict on Ok/Err)");
+    }
     out.nontrivial = invalid;
     out.class(format!("target:{}", ["FrameBuf", "Context", "(FrameBuf,Context)"][c.target as usize % 3]));
     if overfill {
@@ -211,6 +230,7 @@ pub fn check_fill(c: &FillCase) -> Outcome {
             // absurd widths: any byte string will do
             b.truncate(64);
         }
+        b.truncate(b.len() - cut_bytes.min(b.len()));
         b
     } else {
         vec![]
@@ -265,15 +285,26 @@ pub fn check_fill(c: &FillCase) -> Outcome {
         }
         Ok(Err(_)) => {
             out.class("fill:err");
-            if !invalid {
+            if !invalid && cut_values == 0 && cut_bytes == 0 {
                 out.viol("fill-rejects-valid", what);
+            }
+        }
+        Ok(Ok(())) if cut_values > 0 || (cut_bytes > 0 && !invalid) => {
+            // accepted (the library rounds down): whatever it stored must encode without a panic
+            out.class("fill:ok(ragged, rounded)");
+            if c.target % 3 != 1 {
+                if let (Ok(info), Ok(vc)) = (StreamInfo::new(44100, c.channels, c.bps), enc::verified(&small_cfg(c.capacity))) {
+                    if let Err(p) = catch(|| flacenc::encode_fixed_size_frame(&vc, &fb, 0, &info).map(|f| enc::frame_bytes(&f, 1 << 26))) {
+                        out.viol(format!("encode-after-ragged-fill-{}", normalise(&p.sig())), format!("{what} (cut {cut_values} values): {}", p.msg));
+                    }
+                }
             }
         }
         Ok(Ok(())) => {
             out.class("fill:ok");
             if invalid {
                 out.viol(
-                    format!("fill-accepts-invalid:{}{}", if overfill { "over-fill" } else { "byte-width" }, if c.target % 3 == 1 { ":context" } else { "" }),
+                    format!("fill-accepts-invalid:{}{}", if overfill { "over-fill" } else if ragged_bytes { "ragged-byte-string" } else { "byte-width" }, if c.target % 3 == 1 { ":context" } else { "" }),
                     format!("{what}: returned Ok (filled_size now {})", fb.filled_size()),
                 );
             } else if c.target % 3 != 1 {
@@ -558,6 +589,9 @@ pub struct FrameCase17 {
     /// history: the buffer first receives a valid block through `fill_le_bytes` (native width)
     #[serde(default)]
     pub prefill_bytes: bool,
+    /// channel count of the `StreamInfo` handed to the encoder when it differs from the buffer's
+    #[serde(default)]
+    pub info_channels: Option<usize>,
 }
 
 pub fn check_frame(c: &FrameCase17) -> Outcome {
@@ -569,7 +603,11 @@ pub fn check_frame(c: &FrameCase17) -> Outcome {
         Some(k) => k.min(c.block),
     };
     let empty = delivered == 0;
-    let must_err = !num_valid || c.bad_sample.is_some() || empty;
+    let mismatch = c.info_channels.map_or(false, |k| k != c.channels);
+    let must_err = !num_valid || c.bad_sample.is_some() || empty || mismatch;
+    if mismatch {
+        out.class(if c.info_channels.unwrap() > c.channels { "arg:stream-info-declares-more-channels-than-the-buffer-has" } else { "arg:stream-info-declares-fewer-channels-than-the-buffer-has" });
+    }
     out.nontrivial = must_err;
     if empty {
         out.class("arg:empty-frame-buffer");
@@ -580,7 +618,7 @@ pub fn check_frame(c: &FrameCase17) -> Outcome {
     if c.bad_sample.is_some() {
         out.class("arg:sample-outside-width");
     }
-    let (Ok(mut fb), Ok(info), Ok(vc)) = (FrameBuf::with_size(c.channels, c.block), StreamInfo::new(44100, c.channels, c.bps), enc::verified(&small_cfg(c.block))) else {
+    let (Ok(mut fb), Ok(info), Ok(vc)) = (FrameBuf::with_size(c.channels, c.block), StreamInfo::new(44100, c.info_channels.unwrap_or(c.channels), c.bps), enc::verified(&small_cfg(c.block))) else {
         out.class("skipped:setup-arguments-invalid");
         return out;
     };
@@ -623,7 +661,7 @@ pub fn check_frame(c: &FrameCase17) -> Outcome {
         Ok(Ok(f)) => {
             out.class("result:ok");
             if must_err {
-                out.viol(if empty { "frame-accepts-invalid:empty-frame-buffer" } else if num_valid { "frame-accepts-invalid:sample" } else { "frame-accepts-invalid:frame-number" }, format!("{what}: returned Ok"));
+                out.viol(if mismatch { "frame-accepts-invalid:channel-count-of-buffer-and-stream-info-differ" } else if empty { "frame-accepts-invalid:empty-frame-buffer" } else if num_valid { "frame-accepts-invalid:sample" } else { "frame-accepts-invalid:frame-number" }, format!("{what}: returned Ok"));
             } else {
                 // faithful: the header carries exactly this number
                 let fctx = refdec::FrameCtx { rate: Some(44100), bps: Some(c.bps as u32), channels: Some(c.channels), max_block: None };
@@ -740,20 +778,20 @@ fn fill_grid() -> Vec<Case17> {
                 for (bps, cap) in [(16usize, 64usize), (24, 33), (8, 32)] {
                     let native = (bps + 7) / 8;
                     for extra in [0usize, 1, 2, 31, 64, 1000] {
-                        v.push(Case17::Fill(FillCase { channels, bps, capacity: cap, extra, nbytes: native, target, by_bytes, seed: 3, initial_size: None, ragged: 0, prefill: 0 }));
+                        v.push(Case17::Fill(FillCase { channels, bps, capacity: cap, extra, nbytes: native, target, by_bytes, seed: 3, initial_size: None, ragged: 0, prefill: 0, cut_bytes: 0, cut_values: 0 }));
                     }
                     // over-fills by less than one inter-channel sample
                     for ragged in 1..channels {
                         for extra in [0usize, 1] {
                             for prefill in [0u8, 1] {
-                                v.push(Case17::Fill(FillCase { channels, bps, capacity: cap, extra, nbytes: native, target, by_bytes, seed: 6, initial_size: None, ragged, prefill }));
+                                v.push(Case17::Fill(FillCase { channels, bps, capacity: cap, extra, nbytes: native, target, by_bytes, seed: 6, initial_size: None, ragged, prefill, cut_bytes: 0, cut_values: 0 }));
                             }
                         }
                     }
                     if by_bytes {
                         for nbytes in [0usize, 1, 2, 3, 4, 5, 8, 9, 255, P32 + 2, usize::MAX] {
                             for prefill in [0u8, 1, 2] {
-                                v.push(Case17::Fill(FillCase { channels, bps, capacity: cap, extra: 0, nbytes, target, by_bytes, seed: 4, initial_size: None, ragged: 0, prefill }));
+                                v.push(Case17::Fill(FillCase { channels, bps, capacity: cap, extra: 0, nbytes, target, by_bytes, seed: 4, initial_size: None, ragged: 0, prefill, cut_bytes: 0, cut_values: 0 }));
                             }
                         }
                     }
@@ -767,7 +805,36 @@ fn fill_grid() -> Vec<Case17> {
             for channels in [1usize, 2, 3] {
                 for (s0, cap) in [(4096usize, 1024usize), (1024, 4096), (100, 150), (150, 100), (64, 32), (32, 33)] {
                     for extra in [0usize, 1, 2, 50, 1000, 3072] {
-                        v.push(Case17::Fill(FillCase { channels, bps: 16, capacity: cap, extra, nbytes: 2, target, by_bytes, seed: 5, initial_size: Some(s0), ragged: 0, prefill: 0 }));
+                        v.push(Case17::Fill(FillCase { channels, bps: 16, capacity: cap, extra, nbytes: 2, target, by_bytes, seed: 5, initial_size: Some(s0), ragged: 0, prefill: 0, cut_bytes: 0, cut_values: 0 }));
+                    }
+                }
+            }
+        }
+    }
+    v
+}
+
+/// Byte strings / value lists that are not a whole number of (inter-channel) samples, below the capacity.
+fn ragged_fill_grid() -> Vec<Case17> {
+    let mut v = vec![];
+    for channels in [1usize, 2, 3, 8] {
+        for bps in [8usize, 12, 16, 20, 24] {
+            let native = (bps + 7) / 8;
+            for nbytes in [native, 4] {
+                for cut_bytes in 1..nbytes {
+                    for target in 0..3u8 {
+                        for prefill in 0..3u8 {
+                            for cap in [32usize, 64] {
+                                v.push(Case17::Fill(FillCase { channels, bps, capacity: cap, extra: 0, nbytes, target, by_bytes: true, seed: 8, initial_size: None, ragged: 0, prefill, cut_bytes, cut_values: 0 }));
+                            }
+                        }
+                    }
+                }
+            }
+            for cut_values in 1..channels {
+                for target in 0..3u8 {
+                    for by_bytes in [false, true] {
+                        v.push(Case17::Fill(FillCase { channels, bps, capacity: 40, extra: 0, nbytes: native, target, by_bytes, seed: 9, initial_size: None, ragged: 0, prefill: (cut_values % 3) as u8, cut_bytes: 0, cut_values }));
                     }
                 }
             }
@@ -778,16 +845,26 @@ fn fill_grid() -> Vec<Case17> {
 
 fn frame_grid() -> Vec<Case17> {
     let mut v = vec![];
+    // the buffer and the stream description disagree on the number of channels
+    for fbch in 1usize..=8 {
+        for sich in 1usize..=8 {
+            if fbch != sich {
+                for bps in [8usize, 16, 24] {
+                    v.push(Case17::Frame(FrameCase17 { channels: fbch, bps, block: 64, frame_number: 2, bad_sample: None, seed: 11, fill: if (fbch + sich) % 2 == 0 { None } else { Some(17) }, prefill_bytes: sich % 3 == 0, info_channels: Some(sich) }));
+                }
+            }
+        }
+    }
     for n in frame_number_grid() {
         for (ch, bps) in [(1usize, 16usize), (2, 24), (8, 8)] {
-            v.push(Case17::Frame(FrameCase17 { channels: ch, bps, block: 64, frame_number: n, bad_sample: None, seed: 1, fill: None, prefill_bytes: false }));
+            v.push(Case17::Frame(FrameCase17 { channels: ch, bps, block: 64, frame_number: n, bad_sample: None, seed: 1, fill: None, prefill_bytes: false, info_channels: None }));
         }
     }
     // delivered sample counts: empty fill, never filled, short valid blocks, full
     for (ch, bps) in [(1usize, 16usize), (2, 24), (8, 8)] {
         for fill in [Some(0usize), Some(usize::MAX), Some(1), Some(2), Some(15), Some(16), Some(63), None] {
             for block in [32usize, 64, 4096] {
-                v.push(Case17::Frame(FrameCase17 { channels: ch, bps, block, frame_number: 7, bad_sample: None, seed: 3, fill, prefill_bytes: false }));
+                v.push(Case17::Frame(FrameCase17 { channels: ch, bps, block, frame_number: 7, bad_sample: None, seed: 3, fill, prefill_bytes: false, info_channels: None }));
             }
         }
     }
@@ -796,8 +873,8 @@ fn frame_grid() -> Vec<Case17> {
             for i in [0usize, 1, 63, 64 * ch - 1, 17] {
                 for above in [false, true] {
                     for far in [0u8, 1] {
-                        v.push(Case17::Frame(FrameCase17 { channels: ch, bps, block: 64, frame_number: 3, bad_sample: Some((i, above, far)), seed: 2, fill: None, prefill_bytes: false }));
-                        v.push(Case17::Frame(FrameCase17 { channels: ch, bps, block: 64, frame_number: 3, bad_sample: Some((i, above, far)), seed: 2, fill: None, prefill_bytes: true }));
+                        v.push(Case17::Frame(FrameCase17 { channels: ch, bps, block: 64, frame_number: 3, bad_sample: Some((i, above, far)), seed: 2, fill: None, prefill_bytes: false, info_channels: None }));
+                        v.push(Case17::Frame(FrameCase17 { channels: ch, bps, block: 64, frame_number: 3, bad_sample: Some((i, above, far)), seed: 2, fill: None, prefill_bytes: true, info_channels: None }));
                     }
                 }
             }
@@ -810,9 +887,9 @@ pub fn run(ctx: &Ctx) {
     ctx.rule(
         "complete grids, one argument at a time with the others valid (thorough: also pairs): \
          StreamInfo::new / Stream::new over the FULL product of rate x channels x bits grids {0, min-1, min, max, max+1, 2^8+k, 2^16+k, 2^32+k, usize::MAX}; FrameBuf::with_size over the full product channels x size; \
-         fills of FrameBuf / Context / (FrameBuf, Context) with capacity+extra samples (extra in {0,1,2,31,64,1000}; also capacity + 1..channels-1 surplus VALUES, i.e. less than one inter-channel sample too many) as integers and bytes, byte widths {0..5, 8, 9, 255, 2^32+2, usize::MAX}, each also after a valid block has been accepted (history); \
+         fills of FrameBuf / Context / (FrameBuf, Context) with capacity+extra samples (extra in {0,1,2,31,64,1000}; also capacity + 1..channels-1 surplus VALUES, i.e. less than one inter-channel sample too many) as integers and bytes, byte widths {0..5, 8, 9, 255, 2^32+2, usize::MAX}, each also after a valid block has been accepted (history); byte strings that are not a whole number of samples (1..width-1 bytes cut off an under-full block: Err required for buffers) and value lists that are not a whole number of inter-channel samples (no verdict on Ok/Err; what was stored must encode without panic); \
          encode_with_fixed_block_size in single- and multi-thread mode (60 s deadline per call) from a source that declares grid values for rate / channels / bits, with grid block sizes, over-long reads (by whole samples and by 1..channels-1 values), wrong byte widths from the first read or only from read 1..3 on, and samples outside the width at read 0..3; \
-         encode_fixed_size_frame over the frame-number grid and with one sample just outside / far outside the width at several positions; plus proptest-generated positions, widths and over-fill amounts; \
+         encode_fixed_size_frame with every pair of differing (buffer channels, StreamInfo channels) in 1..=8 (Err required), over the frame-number grid and with one sample just outside / far outside the width at several positions; plus proptest-generated positions, widths and over-fill amounts; \
          oracle: Err, or a result that states exactly the given values (accessors, serialised STREAMINFO, decoded audio, MD5, frame number); never a panic / hang / reinterpreted value; Err is REQUIRED for over-fills, disagreeing byte widths, samples outside the width, frame numbers >= 2^31 and block sizes outside 32..=32767; \
          non-trivial = grid point with an argument outside the documented domain; distinct by value",
     );
@@ -832,6 +909,8 @@ pub fn run(ctx: &Ctx) {
     // C
     let fg = fill_grid();
     ctx.enumerate_all("fill", 16, fg.len() as u64, |i| fg[i as usize].clone(), check);
+    let rfg = ragged_fill_grid();
+    ctx.enumerate_all("fill-ragged", 16, rfg.len() as u64, |i| rfg[i as usize].clone(), check);
     // E
     let frg = frame_grid();
     ctx.enumerate_all("frame", 16, frg.len() as u64, |i| frg[i as usize].clone(), check);
@@ -846,12 +925,12 @@ pub fn run(ctx: &Ctx) {
             .prop_map(|(channels, bps, capacity, extra, nb, target, by_bytes, seed)| {
                 let native = (bps + 7) / 8;
                 let nbytes = if nb == 6 { native } else { nb };
-                Case17::Fill(FillCase { channels, bps, capacity, extra, nbytes, target, by_bytes, seed, initial_size: if seed % 3 == 0 { Some(32 + (seed / 3 % 600) as usize) } else { None }, ragged: if seed % 5 < 2 { (seed / 5 % 8) as usize } else { 0 }, prefill: (seed / 7 % 3) as u8 })
+                Case17::Fill(FillCase { channels, bps, capacity, extra, nbytes, target, by_bytes, seed, initial_size: if seed % 3 == 0 { Some(32 + (seed / 3 % 600) as usize) } else { None }, ragged: if seed % 5 < 2 { (seed / 5 % 8) as usize } else { 0 }, prefill: (seed / 7 % 3) as u8, cut_bytes: if seed % 11 < 3 { 1 + (seed / 11 % 3) as usize } else { 0 }, cut_values: if seed % 13 < 3 { 1 + (seed / 13 % 7) as usize } else { 0 } })
             })
     }, check);
     ctx.search("gen-frame", 16, per * 2, &|| {
         (1usize..=8, proptest::sample::select(vec![8usize, 12, 16, 20, 24]), 32usize..=500, prop_oneof![3 => 0usize..(1 << 31), 1 => (1usize << 31)..usize::MAX], proptest::option::weighted(0.6, (any::<usize>(), any::<bool>(), 0u8..2)), any::<u64>())
-            .prop_map(|(channels, bps, block, frame_number, bad_sample, seed)| Case17::Frame(FrameCase17 { channels, bps, block, frame_number, bad_sample, seed, fill: None, prefill_bytes: seed % 3 == 0 }))
+            .prop_map(|(channels, bps, block, frame_number, bad_sample, seed)| Case17::Frame(FrameCase17 { channels, bps, block, frame_number, bad_sample, seed, fill: None, prefill_bytes: seed % 3 == 0, info_channels: if seed % 7 == 0 { Some(1 + (seed / 7 % 8) as usize) } else { None } }))
     }, check);
     ctx.search("gen-stream", 8, per, &|| {
         let mis = prop_oneof![
